@@ -248,6 +248,15 @@ func VerifHarness_C07_reconstruct_last_commit() {
 	}
 	round := int64(vNondetLen("commit-round", 0, 1))
 	bid := cs.state.LastBlockID
+	if vNondetBool("validator-set-changed-by-last-block") {
+		// the committed block changed the validator set: the commit is still one of the OLD set
+		next := cs.state.LastValidators.Copy()
+		v := next.Validators[3].Copy()
+		v.VotingPower = 10
+		next.Update(v)
+		cs.state.Validators = next
+		cs.Validators = next
+	}
 	vs := types.NewVoteSet(vChain, 1, round, types.VoteTypePrecommit, cs.state.LastValidators)
 	nFor := 0
 	for i := 0; i < 4; i++ {
